@@ -74,12 +74,13 @@ def ruleOf (dr : Nat) : Rule :=
   { nodrop := dr == 0, basic := dr % 2 == 1, secondary := (dr / 2) % 8 != 0, interp := (dr / 256) % 2 == 1 }
 
 section drow
-variable (R : Type) [FBits R] [Inhabited R] [LT R] [DecidableLT R]
+variable (K R : Type) [Wire K] [Inhabited K] [FBits R] [Inhabited R] [LT R] [DecidableLT R]
 
 def rabsR (x : Rat) : Rat := if x < 0 then -x else x
 
-def dropCase (ops : DropOps R R Float) (c : Case) : Res :=
+def dropCase (cplx : Bool) (ops : DropOps K R Float) (c : Case) : Res :=
   let dbl := FBits.isDouble R
+  let w := if cplx then 2 else 1
   let m := c.pNat "m"; let n := c.pNat "n"; let first := c.pNat "first"; let last := c.pNat "last"
   let lastc := c.pNat "lastc" == 1
   let dr := c.pNat "droprule"; let rule := ruleOf dr; let milu := miluOf (c.pNat "milu"); let nrm := nrmOf (c.pNat "nrm")
@@ -90,9 +91,9 @@ def dropCase (ops : DropOps R R Float) (c : Case) : Res :=
   let lsub0 := c.int "lsub0"; let lsub1 := c.int "lsub1"
   let xlsub0 := c.int "xlsub0"; let xlsub1 := c.int "xlsub1"; let xlusup0 := c.int "xlusup0"; let xlusup1 := c.int "xlusup1"
   let ret := c.pNat "ret" 99999
-  let inp : DropIn R R Float :=
+  let inp : DropIn K R Float :=
     { rule := rule, milu := milu, nrm := nrm, first := first, last := last, dropTol := dropTol, quota := c.pInt "quota",
-      nnzLj := c.pInt "nnzLj0", fillTol := fillTol0, alpha := alpha, lastc := lastc, lusup := lusup0b.map FBits.ofBits,
+      nnzLj := c.pInt "nnzLj0", fillTol := fillTol0, alpha := alpha, lastc := lastc, lusup := Wire.dec lusup0b,
       lsub := lsub0, xlsub := xlsub0, xlusup := xlusup0 }
   let o := dropRow ops inp
   let xf := (xlusup0[first]!).toNat; let sf := (xlsub0[first]!).toNat
@@ -106,15 +107,15 @@ def dropCase (ops : DropOps R R Float) (c : Case) : Res :=
   -- ---------------- Prop: on the implementation's outputs ----------------
   let subs0 := lsub0.extract sf (sf + m)
   let subs1 := lsub1.extract sf (sf + m')
-  let row0 (i : Nat) : Array UInt64 := (Array.range n).map fun j => lusup0b[xf + i + j * m]!
-  let row1 (i : Nat) : Array UInt64 := (Array.range n).map fun j => lusup1b[xf + i + j * m']!
+  let row0 (i : Nat) : Array UInt64 := (Array.range (n * w)).map fun jj => lusup0b[(xf + i + (jj / w) * m) * w + jj % w]!
+  let row1 (i : Nat) : Array UInt64 := (Array.range (n * w)).map fun jj => lusup1b[(xf + i + (jj / w) * m') * w + jj % w]!
   let posOf (s : Int) : Option Nat := (List.range m).find? fun i => subs0[i]! == s
   -- threshold clause (on the implementation's kept set, norms by the model's arithmetic)
   let keptSet := subs1.toList
   let removed : List Nat := (List.range m).filter fun i => !(keptSet.contains subs0[i]!)
   let tolSec : Option Float := o.p2.tol
   let thrViol : Nat := (removed.filter fun i =>
-      let nr : R := ops.rowNorm nrm ((row0 i).map FBits.ofBits)
+      let nr : R := ops.rowNorm nrm (Wire.dec (row0 i))
       !((rule.basic && ops.ltTol nr dropTol) || (match tolSec with | some t => ops.leTol nr t | none => false))).length
   let tags := tags0 ++ [s!"thr={if thrViol == 0 then "ok" else "viol"}", s!"pass1={if p1 == 0 then "0" else "some"}"]
   let prop : Option String :=
@@ -127,7 +128,7 @@ def dropCase (ops : DropOps R R Float) (c : Case) : Res :=
         match posOf subs1[i]! with
         | none => some s!"subset: kept subscript {subs1[i]!} is not a subscript of the supernode"
         | some i0 =>
-          if (List.range n).any (fun j => !(i < n && j == i) && canonNaN (row1 i)[j]! != canonNaN (row0 i0)[j]!) then
+          if (List.range (n * w)).any (fun jj => !(i < n && jj / w == i) && canonNaN (row1 i)[jj]! != canonNaN (row0 i0)[jj]!) then
             some s!"subset: kept row {subs1[i]!} changed value outside the diagonal"
           else none) with
     | some msg => some msg
@@ -135,7 +136,7 @@ def dropCase (ops : DropOps R R Float) (c : Case) : Res :=
       if (c.raw "dwork1").any (fun b => b != 0) then some "zeroed: dwork not zero on exit" else
       if thrViol ≠ 0 ∧ c.pNat "strictthr" == 1 then some s!"threshold: {thrViol} removed row(s) with norm above both thresholds" else
       -- MILU compensation, exact rationals
-      if ret == 0 ∨ milu == .silu ∨ !(c.p "dim" == "3" || c.p "dim" == "2" || c.p "dim" == "1") then none else
+      if cplx ∨ ret == 0 ∨ milu == .silu ∨ !(c.p "dim" == "3" || c.p "dim" == "2" || c.p "dim" == "1") then none else
       match ratsOf dbl lusup0b, ratsOf dbl lusup1b, ratsOf dbl (c.raw "alpha") with
       | some v0, some v1, some al =>
         let eps : Rat := if dbl then pow2 (-52) else pow2 (-23)
@@ -165,7 +166,7 @@ def dropCase (ops : DropOps R R Float) (c : Case) : Res :=
     (cmpInts "xlsub" o.xlsub xlsub1).orElse fun _ =>
     (cmpInts "xlusup" o.xlusup xlusup1).orElse fun _ =>
     (cmpInts "lsub" o.lsub lsub1).orElse fun _ =>
-    (cmpBits "lusup" (o.lusup.map FBits.toBits) lusup1b).orElse fun _ =>
+    (cmpBits "lusup" (Wire.enc o.lusup) lusup1b).orElse fun _ =>
     if o.p2.usedSelect ∧ c.pNat "have2" == 1 then
       cmpBits "dwork2" (o.p2.work2.map FBits.toBits) ((c.raw "dwork2").extract 0 o.p2.work2.size)
     else none
@@ -178,6 +179,7 @@ def handle (c : Case) : Res :=
   if c.p "kind" == "qselect" then
     (if c.isDouble then qselCase Float c else qselCase Float32 c)
   else
-    (if c.isDouble then dropCase Float opsF64 c else dropCase Float32 opsF32 c)
+    (if c.ty == 'z' then dropCase (Cx Float) Float true opsC64 c
+     else if c.isDouble then dropCase Float Float false opsF64 c else dropCase Float32 Float32 false opsF32 c)
 
 end Slu.Drv.IluDrop
